@@ -296,6 +296,27 @@ PROPS['C18'] = dict(
     level_note='Fixes made while building this check: named graphs merged into triples-only outputs; content sniffing overriding the file extension.',
 )
 
+PROPS['C11'] = dict(
+    families=[dict(name='c11-rdfa', quick=2500, thorough=200000), dict(name='c11-microdata', quick=2000, thorough=150000),
+              dict(name='c11-script', quick=1200, thorough=80000), dict(name='c11-combined', quick=800, thorough=60000)],
+    slice=15,
+    rule='RDFa: HTML5 documents drawn as element trees (html / head with title, base, meta, link / body with div, section, ul, li, span, em, a, img, meta, link and text) where every element may carry any combination of about, resource, href, src, typeof, property, rel, rev, content, datatype, inlist, prefix, vocab, lang: '
+         'IRIs of every relative form, CURIEs with declared, initial-context and default prefixes, safe CURIEs, blank node CURIEs, terms (initial terms, terms under @vocab, unresolvable tokens), several tokens per attribute, nested four deep for chaining, incomplete triples and list mappings; '
+         'Microdata: trees with itemscope / itemid / itemtype / itemprop / itemref on the elements with different value rules (meta, img, audio, a, link, object, data, plain elements), nested items, absolute and vocabulary-relative names, items referenced before and after their definition and from several items, duplicate ids, properties outside items; '
+         'JSON-LD: datasets written by the C10 writer into one to three script elements in head or body, next to other scripts, with the type attribute in plain, upper-case, parameterised and padded form; '
+         'each tree is written as HTML with free attribute order, quoting (double, single, none), letter case of tags and attributes, character references, comments, foreign attributes, valueless attributes, optional doctype; location and base element varied; offset capture on 1/4. '
+         'combined: documents carrying all three syntaxes (with blank node labels shared between them); the combined decoder must give the disjoint union of the three decoders on the same document',
+    trusted_base=['model/Rdfa.v: RDFa Core 1.1 section 7.5 with the HTML+RDFa 1.1 rules for head / body / base / lang / terms in @rel, over the parsed element tree; outside the model: XMLLiteral / HTML literals, @datetime and time, rdfa:copy, xmlns: prefixes, vocabulary expansion, the full initial context',
+                  'model/Microdata.v: the Microdata item model with the value rules and type-relative property names (type up to its last "/"); outside: time / meter typing, language, short names on items without a type',
+                  'model/JsonLd.v for script elements; golang.org/x/net/html builds the element tree (its reading of the HTML text is exercised, not modelled); the harness HTML writer',
+                  'the combined decoder is compared with the three decoders it combines, whose results the other three families check'],
+    assumptions=['RDFa Core 7.5 step 8 decides by comparing the new subject with the parent object; the decoder compares with the parent subject. The two differ only where @inlist is used below an element whose object resource differs from its subject; the generator keeps @inlist out of that position (DESIGN.md, C11)',
+                 'x/net/html reads a "/" before ">" after an unquoted attribute value as a self-closing mark; the writer does not put one there'],
+    explanation='each decoder is run against an executable specification (the model) on grammar-directed documents, the JSON-LD reader also against the dataset each script was written from; theorems state that attribute order and attribute-free wrapper elements never change what a document denotes',
+    level_text='Proof (partial): C11_rdfa_attribute_order, C11_microdata_attribute_order, C11_rdfa_plain_markup_transparent, C11_microdata_plain_markup_transparent over the models, for every element, context and state; equality of the decoders and the models by exploration (the models are the specification: a difference is a violation); the combined decoder by comparison with its parts.',
+    level_note='Fixes made while building this check: RDFa @rel+@inlist+@property value, datatype xsd:string with a language in scope, undeclared safe CURIEs, CURIE expansion of @href / @src, the default prefix under @vocab, relative base href on the base element; Microdata items reached twice; script type matching.',
+)
+
 PROPS['C10'] = dict(
     families=[dict(name='c10-decode', quick=2500, thorough=200000), dict(name='c10-encode', quick=2500, thorough=200000)],
     slice=20,
